@@ -895,6 +895,34 @@ fn m_rollbacks(f: &[String]) -> String {
 	out
 }
 
+// rbgame: <slp hex>: the rollback masks of the game the reader returns (columns as parsed, not rebuilt)
+fn m_rbgame(f: &[String]) -> String {
+	let data = unhex(&f[0]);
+	let mut out = String::new();
+	let g = match slippi::read(io::Cursor::new(&data), None) {
+		Ok(g) => g,
+		Err(e) => {
+			writeln!(out, "{}", err_class(&e)).unwrap();
+			return out;
+		}
+	};
+	writeln!(out, "OK").unwrap();
+	let ids: Vec<String> = g.frames.id.values().iter().map(|x| x.to_string()).collect();
+	writeln!(out, "ids={}", ids.join(",")).unwrap();
+	let s = |v: Vec<bool>| v.iter().map(|x| if *x { '1' } else { '0' }).collect::<String>();
+	let a = std::panic::catch_unwind(std::panic::AssertUnwindSafe(|| g.frames.rollbacks(Rollbacks::ExceptFirst)));
+	let b = std::panic::catch_unwind(std::panic::AssertUnwindSafe(|| g.frames.rollbacks(Rollbacks::ExceptLast)));
+	match a {
+		Ok(v) => writeln!(out, "first=[{}]", s(v)).unwrap(),
+		Err(_) => writeln!(out, "first=PANIC").unwrap(),
+	}
+	match b {
+		Ok(v) => writeln!(out, "last=[{}]", s(v)).unwrap(),
+		Err(_) => writeln!(out, "last=PANIC").unwrap(),
+	}
+	out
+}
+
 // sjis: <hex bytes>
 fn m_sjis(f: &[String]) -> String {
 	let b = unhex(&f[0]);
@@ -965,6 +993,7 @@ pub fn dispatch(mode: &str, f: &[String]) -> String {
 		"norm" => m_norm(f),
 		"normstr" => m_normstr(f),
 		"xxh" => m_xxh(f),
+		"rbgame" => m_rbgame(f),
 		"rexact" => m_rexact(f),
 		"readsched" => m_readsched(f),
 		"view" => crate::modes_view::m_view(f),
